@@ -46,6 +46,7 @@ pub fn case(tape: &[u32]) -> CaseOutcome {
     let mut t = Tape::new(&main);
     let mut cfg = GenCfg::fragment();
     cfg.collisions = a.chance(1, 2);
+    cfg.scoped_heavy = a.chance(1, 2);
     cfg.prints = false;
     cfg.fault = a.chance(1, 10);
     cfg.max_stanzas = 5;
